@@ -196,8 +196,10 @@ def _panel(c, cast=None):
             df = df[list(order)]
         return df
     Xtr = frame(labels, c.get("dup"))
-    Xte = frame(c["ytest"], order=c.get("pred_order"))
     ytr = _yarr(labels, c.get("yas", "np"))
+    if c.get("test_on_train"):                                # queried on the training panel: predictions cover every class
+        return Xtr, ytr, (Xtr.copy() if hasattr(Xtr, "copy") else Xtr), _yarr(labels, "np")
+    Xte = frame(c["ytest"], order=c.get("pred_order"))
     yte = _yarr(c["ytest"], "np")
     return Xtr, ytr, Xte, yte
 
@@ -1831,6 +1833,12 @@ def gen_cases(tier, rng):
                     h["labels"] = [keep[i % len(keep)] for i in range(max(len(keep), 5))]
                 h.pop("L", None)
                 c["other"] = h
+                if algo != "reg":                                 # query A on every one of its classes
+                    c["labels"] = c["labels"][:8] if len(set(map(str, c["labels"][:8]))) == len(set(map(str, c["labels"]))) else c["labels"]
+                    c["test_on_train"] = True
+                    c["ytest"] = list(c["labels"])
+                    c["noise"] = 3
+                    c.pop("pred_order", None)
                 cases.append(c)
     for _ in range(10 if q else 150):
         c = _base_random(rng)
